@@ -19,8 +19,9 @@ from .sbytes import SBytes, SDigits, IntSeg
 SYM = (SInt, SBool, SBytes, SDigits, SFloat)
 
 
+
 def is_symbolic(x):
-    return isinstance(x, SYM)
+    return isinstance(x, SYM) or type(x).__name__ in ("SText", "B64")
 
 
 # -- int --------------------------------------------------------------------
@@ -83,6 +84,8 @@ def sx_isinstance(obj, cls):
                 "bytearray": builtins.bytearray}[obj.kind] is cls
     if isinstance(obj, SDigits):
         return cls in ((builtins.bytes if obj.is_bytes else builtins.str), object)
+    if type(obj).__name__ in ("SText", "B64"):
+        return cls in (builtins.bytes, object)
     if isinstance(obj, SFloat):
         return cls in (builtins.float, object)
     return builtins.isinstance(obj, cls)
@@ -231,6 +234,17 @@ def sx_join(sep, it):
     items = list(it)
     if not any(is_symbolic(x) for x in items) and not is_symbolic(sep):
         return sep.join(items)
+    if isinstance(sep, (bytes, bytearray)) and any(isinstance(x, (SText, B64)) for x in items):
+        out = b""
+        first = True
+        for x in items:
+            if not first and len(sep):
+                out = out + bytes(sep)
+            first = False
+            if isinstance(x, B64):
+                x = x._st() if x.n else b""
+            out = out + x if len(x) else out
+        return out
     if isinstance(sep, (bytes, bytearray)):
         segs = []
         first = True
@@ -334,16 +348,7 @@ def sx_unhexlify(x):
     return sx_binascii.unhexlify(x)
 
 
-class B64(object):
-    """base64 text of (possibly symbolic) bytes, as an opaque token.
-    b64decode(B64(x)) == x only if the text arrives intact."""
-
-    def __init__(self, data):
-        self.data = data
-        self.n = 4 * ((len(data) + 2) // 3)
-
-    def __len__(self):
-        return self.n
+from .stext import B64, SText, decode as _b64_token_decode
 
 
 class sx_base64(object):
@@ -355,8 +360,8 @@ class sx_base64(object):
 
     @staticmethod
     def b64decode(x, *a):
-        if isinstance(x, B64):
-            return x.data
+        if isinstance(x, (B64, SText)):
+            return _b64_token_decode(x)
         if isinstance(x, SBytes):
             # stub: text with symbolic characters either is rejected (binascii.Error)
             # or decodes to arbitrary bytes of any length up to 3/4 of the text
